@@ -205,6 +205,66 @@ theorem lstsq_rcond_defaulting (m n : Nat) (eps mach s1 r : ℝ) :
     (0 ≤ r → lstsqCutoff (some r) m n eps mach s1 = r * s1) :=
   lstsqCutoff_cases m n eps mach s1 r
 
+/-- **`LSTSQ.forward` on an orthogonal-factorisation driver (the default `gelsy`)** — so far wrapper correspondence only.
+Whatever numerical rank `r` the driver decides on: if `Q : m × r`, `Z : n × r` have orthonormal columns and `T` is invertible
+(`A_r = Q T Zᵀ` is the part of `A` the driver keeps — a complete orthogonal decomposition; LAPACK's `T` is triangular, which
+is not needed), then the model `lstsqForwardCod` (`x = Z T⁻¹ Qᵀ b`, then the NaN assertion) returns, and the returned
+vector is the minimum-norm least-squares solution of `A_r x = b`. -/
+theorem lstsq_cod_forward_minnorm (m n r : Nat) (Q Z T Ti : Nat → Nat → ℝ) (b : Nat → ℝ)
+    (hQ : (toMat m r Q)ᵀ * toMat m r Q = 1) (hZ : (toMat n r Z)ᵀ * toMat n r Z = 1)
+    (hT : toMat r r T * toMat r r Ti = 1) :
+    let A := toMat m r Q * toMat r r T * (toMat n r Z)ᵀ
+    ∃ xt, lstsqForwardCod m n r Q Z Ti b = .ok xt ∧
+      (∀ y, nrm2 (A *ᵥ toVec n xt.get - toVec m b) ≤ nrm2 (A *ᵥ y - toVec m b)) ∧
+      (∀ y, Aᵀ *ᵥ (A *ᵥ y - toVec m b) = 0 →
+        nrm2 (toVec n xt.get) ≤ nrm2 y ∧ (nrm2 y = nrm2 (toVec n xt.get) → y = toVec n xt.get)) := by
+  intro A
+  obtain ⟨xt, hok, hx⟩ := lstsqForwardCod_ok m n r Q Z Ti b
+  refine ⟨xt, hok, ?_⟩
+  rw [hx]
+  exact isPinv_minnorm A _ (toVec m b) (cod_isPinv _ _ _ _ hQ hZ hT)
+
+/-- **… and of `A x = b` itself** when the decomposition is one of `A` (nothing discarded: `A = Q T Zᵀ`, e.g. `r = rank A`):
+the returned vector minimises `‖A y − b‖` and is the shortest minimiser; if the system is consistent it solves it exactly. -/
+theorem lstsq_cod_forward_minnorm_exact (m n r : Nat) (A Q Z T Ti : Nat → Nat → ℝ) (b : Nat → ℝ)
+    (hA : toMat m n A = toMat m r Q * toMat r r T * (toMat n r Z)ᵀ)
+    (hQ : (toMat m r Q)ᵀ * toMat m r Q = 1) (hZ : (toMat n r Z)ᵀ * toMat n r Z = 1)
+    (hT : toMat r r T * toMat r r Ti = 1) :
+    ∃ xt, lstsqForwardCod m n r Q Z Ti b = .ok xt ∧
+      (∀ y, nrm2 (toMat m n A *ᵥ toVec n xt.get - toVec m b) ≤ nrm2 (toMat m n A *ᵥ y - toVec m b)) ∧
+      (∀ y, (toMat m n A)ᵀ *ᵥ (toMat m n A *ᵥ y - toVec m b) = 0 →
+        nrm2 (toVec n xt.get) ≤ nrm2 y ∧ (nrm2 y = nrm2 (toVec n xt.get) → y = toVec n xt.get)) ∧
+      (∀ y, toMat m n A *ᵥ y = toVec m b → toMat m n A *ᵥ toVec n xt.get = toVec m b) := by
+  obtain ⟨xt, hok, hx⟩ := lstsqForwardCod_ok m n r Q Z Ti b
+  have hP := cod_isPinv _ _ _ _ hQ hZ hT
+  rw [← hA] at hP
+  refine ⟨xt, hok, ?_⟩
+  rw [hx]
+  have h := isPinv_minnorm _ _ (toVec m b) hP
+  exact ⟨h.1, h.2, fun y hy => (isPinv_consistent _ _ _ hP y hy).1⟩
+
+/-- **A consistent system** (the clause the shortcut of round-6 seed C07-6 broke): if `A y = b` has a solution at all, the
+vector `P b` computed from the Moore–Penrose inverse (contract `IsPinv` of the kernel; derived from an SVD in `tsvd_law`)
+solves the system exactly, is no longer than ANY solution `y`, and every other solution is strictly longer — so on a
+singular square `A` an "exact solve" that returns a solution with a component in `null(A)` is NOT what `PINV.forward`
+returns. -/
+theorem pinv_forward_consistent (m n : Nat) (A P : Nat → Nat → ℝ) (b : Nat → ℝ) (hP : IsPinv (toMat m n A) (toMat n m P))
+    (y : Fin n → ℝ) (hy : toMat m n A *ᵥ y = toVec m b) :
+    let x := toVec n (pinvForward m n P b).get
+    toMat m n A *ᵥ x = toVec m b ∧ nrm2 x ≤ nrm2 y ∧ (nrm2 y = nrm2 x → y = x) := by
+  intro x
+  have hx : x = toMat n m P *ᵥ toVec m b := toVec_pinvForward m n P b
+  rw [hx]
+  exact isPinv_consistent _ _ _ hP y hy
+
+/-- **A nonsingular square system**: `PINV.forward` returns THE solution `A⁻¹ b` (the only regime in which a direct solve
+and the pseudo-inverse agree). -/
+theorem pinv_forward_nonsingular (n : Nat) (A Ai P : Nat → Nat → ℝ) (b : Nat → ℝ)
+    (hP : IsPinv (toMat n n A) (toMat n n P)) (hA : toMat n n Ai * toMat n n A = 1) :
+    toVec n (pinvForward n n P b).get = toMat n n Ai *ᵥ toVec n b := by
+  rw [toVec_pinvForward]
+  exact isPinv_nonsingular _ _ _ _ hP hA
+
 /-- **`PINV(hermitian=True).forward`** (the branch `pinv(..., hermitian=self.hermitian)` of solver.py): the kernel
 diagonalises the symmetric matrix it reads from one triangle, `A = Q Λ Qᵀ`, takes `|λ|` as singular values and returns
 `Q Λ⁺_cut Qᵀ b`.  For every orthogonal `Q`, every spectrum (indefinite, singular) and every tolerance setting this is the
@@ -649,6 +709,29 @@ example : ((toMat 2 2 fun i j => if i = j then (1 : ℝ) else 0)ᵀ * (toMat 2 2
   · funext i; fin_cases i <;> simp [svKeep]
   · rw [(lstsqCutoff_cases 2 2 (1 / 8) (1 / 16) 4 0).1]; norm_num
   · rw [(lstsqCutoff_cases 2 2 (1 / 8) (1 / 16) 4 (-1)).2.1 (by norm_num)]; norm_num
+
+/-- the hypotheses of `lstsq_cod_forward_minnorm` are satisfiable by a rank-deficient 2 × 2 system with
+`Q = Z = e₁` (2 × 1), `T = (2)`, `T⁻¹ = (1/2)` — i.e. `A = diag(2, 0)` — and the model
+returns `x = (b₀/2, 0)` -/
+example : ((toMat 2 1 fun i _ => if i = 0 then (1 : ℝ) else 0)ᵀ * (toMat 2 1 fun i _ => if i = 0 then (1 : ℝ) else 0) = 1) ∧
+    (toMat 1 1 (fun _ _ => (2 : ℝ)) * toMat 1 1 (fun _ _ => (1 / 2 : ℝ)) = 1) ∧
+    (lstsqOfCod 2 2 1 (fun i _ => if i = 0 then (1 : ℝ) else 0) (fun i _ => if i = 0 then (1 : ℝ) else 0)
+      (fun _ _ => (1 / 2 : ℝ)) (fun i => if i = 0 then 6 else 5)).get 0 = 3 ∧
+    (lstsqOfCod 2 2 1 (fun i _ => if i = 0 then (1 : ℝ) else 0) (fun i _ => if i = 0 then (1 : ℝ) else 0)
+      (fun _ _ => (1 / 2 : ℝ)) (fun i => if i = 0 then 6 else 5)).get 1 = 0 := by
+  refine ⟨?_, ?_, ?_, ?_⟩
+  · ext i j; fin_cases i; fin_cases j; simp [toMat, Matrix.mul_apply]
+  · ext i j; fin_cases i; fin_cases j; simp [toMat, Matrix.mul_apply]
+  · simp [lstsqOfCod, pinvForward, tab_get, matVec_eq, transpose, Finset.sum_range_succ]; norm_num
+  · simp [lstsqOfCod, pinvForward, tab_get, matVec_eq, transpose, Finset.sum_range_succ]
+
+/-- a consistent singular system with a longer second solution: `A = diag(1, 0)`, `b = (1, 0)`, `P = A`; `y = (1, 7)` solves
+it too, `P b = (1, 0)` is shorter (hypotheses of `pinv_forward_consistent` with a strict conclusion) -/
+example : (!![1, 0; 0, 0] : Matrix (Fin 2) (Fin 2) ℝ) *ᵥ ![1, 7] = ![1, 0] ∧
+    nrm2 ((!![1, 0; 0, 0] : Matrix (Fin 2) (Fin 2) ℝ) *ᵥ ![1, 0]) < nrm2 (![1, 7] : Fin 2 → ℝ) := by
+  constructor
+  · funext i; fin_cases i <;> simp [Matrix.mulVec, dotProduct, Fin.sum_univ_two]
+  · simp [nrm2, Matrix.mulVec, dotProduct, Fin.sum_univ_two]
 
 /-- the shape glue accepts `(2, 1)` with an unsqueeze, `(2, 2)` without, and rejects `(2, 3)` -/
 example : cgEntry 2 1 = .ok true ∧ cgEntry 2 2 = .ok false ∧ cgEntry 2 3 = .error "assert:ndim" := by decide
